@@ -82,6 +82,8 @@ def bases : PyExc → List PyExc
   | "InvalidLicenseExpression" => ["ValueError", "Exception"]
   | "IndexError" => ["LookupError", "Exception"]
   | "KeyError" => ["LookupError", "Exception"]
+  | "UnicodeEncodeError" => ["UnicodeError", "ValueError", "Exception"]
+  | "UnicodeDecodeError" => ["UnicodeError", "ValueError", "Exception"]
   | _ => ["Exception"]
 
 def catches (handler : PyExc) (e : PyExc) : Bool := e == handler || (bases e).contains handler
